@@ -477,29 +477,30 @@ def exec_fc(case):
     ovr = make_override(case['ovr'], grid) if case.get('ovr') else None
     if case.get('ovr') == 'two' and n == 1:
         return {'skipped': "override 'two' needs two distinct elements"}
-    ref_ovr = [(el, v) for _, el, v in (ovr or [])]
+    case_ovr = ovr
 
     if fam == 'FCW':
         w3 = make_kernel(case['kernel'], tuple(case['kshape']), seed)
         w_arg = w3[:, :, 0].copy() if (case.get('form') == '2d' and w3.shape[2] == 1) else w3.copy()
         kdesc = f"{case['kernel']}{'x'.join(map(str, case['kshape']))}"
-        build = lambda modes: build_fc(pym, dom, n, modes, weights=w_arg, ovr=ovr)  # noqa: E731
+        build = lambda modes, o: build_fc(pym, dom, n, modes, weights=w_arg, ovr=o)  # noqa: E731
     else:
         w3 = None
         kdesc = f"r{case['radius']}{'rel' if case['rel'] else 'abs'}"
-        build = lambda modes: build_fc(pym, dom, n, modes, radius=case['radius'], rel=case['rel'], ovr=ovr)  # noqa: E731
+        build = lambda modes, o: build_fc(pym, dom, n, modes, radius=case['radius'], rel=case['rel'], ovr=o)  # noqa: E731
 
     def narrowed(modes):
         c = dict(case)
         c['modes'] = [list(modes)]
         return c
 
-    def evaluate(modes):
+    def evaluate(modes, ovr=None):
+        ref_ovr = [(el, v) for _, el, v in (ovr or [])]
         """Runs one mode tuple.  Returns dict(status=..., ...) without recording anything."""
         why = rf.admissible(grid, predicted_pads(case), modes)     # decided by the reference BEFORE anything is run
         if why is not None:
             return {'status': 'inadmissible', 'why': why}
-        m = build(modes)
+        m = build(modes, ovr)
         wk = np.array(m.weights, dtype=float)
         pads = rf.pads_of(wk)
         why = rf.admissible(grid, pads, modes)                     # and again for the support the module really uses
@@ -555,7 +556,8 @@ def exec_fc(case):
             return res
         # invariants, only under the statement's preconditions
         active_const = bool(rf.effective_constants(modes, pads))
-        pre = rf.is_unit_nonneg(kernel) and not active_const and not ovr
+        # the statement asserts that EVERY radius kernel is non-negative and sums to one -> not re-derived from the module
+        pre = (fam == 'FCR' or rf.is_unit_nonneg(kernel)) and not active_const and not ovr
         nax = 3 if grid[2] > 0 else 2
         all_sym = all(modes[s] == 'symmetric' for s in range(2 * nax))
         vol = pre and all_sym and rf.is_mirror_symmetric(kernel)
@@ -570,11 +572,11 @@ def exec_fc(case):
 
     cache = {}
 
-    def fails(modes):
-        k = tuple(map(str, modes))
+    def fails(modes, ovr=None):
+        k = tuple(map(str, modes)) + (ovr is not None,)
         if k not in cache:
             try:
-                r = evaluate(modes)
+                r = evaluate(modes, ovr)
                 cache[k] = None if r['status'] == 'inadmissible' else (r['status'] not in ('ok',))
             except Exception:   # noqa
                 cache[k] = True
@@ -583,6 +585,8 @@ def exec_fc(case):
     def attribute(modes):
         """Root-cause oriented description of a failing tuple: the single boundary rule that already fails alone."""
         base = ['symmetric'] * 6
+        if case_ovr and not fails(modes):
+            return 'override' + (':all-symmetric' if fails(base, case_ovr) else '')   # fine without override_values
         if fails(base):
             return 'all-symmetric'
         nax = 3 if grid[2] > 0 else 2
@@ -597,13 +601,13 @@ def exec_fc(case):
                 t = list(base)
                 t[2 * ax], t[2 * ax + 1] = modes[2 * ax], modes[2 * ax + 1]
                 if fails(t):
-                    return f"axis-pair:{mode_kind(modes[2 * ax])}+{mode_kind(modes[2 * ax + 1])}"
+                    return 'axis-pair:' + '+'.join(sorted({mode_kind(modes[2 * ax]), mode_kind(modes[2 * ax + 1])}))
         return 'combination:' + '+'.join(sorted({mode_kind(m) for m in modes[:2 * nax]}))
 
     kern_family = 'radius' if fam == 'FCR' else 'weights'
     for modes in case['modes']:
         try:
-            r = evaluate(modes)
+            r = evaluate(modes, case_ovr)
         except Exception as e:   # noqa
             from pmc.engine.run import classify_exception
             in_repo, where = classify_exception(e)
@@ -611,8 +615,7 @@ def exec_fc(case):
                 raise
             import traceback
             acc.states += 1
-            acc.bad('raised', {'module': 'FilterConv', 'kernel': kern_family, 'exc': type(e).__name__, 'where': where,
-                               'override': bool(ovr)},
+            acc.bad('raised', {'module': 'FilterConv', 'exc': type(e).__name__, 'where': where},
                     {'modes': modes, 'traceback': ''.join(traceback.format_exception(type(e), e, e.__traceback__))[-2000:]},
                     narrowed(modes))
             acc.outcomes.append(f'{fam}:raised:{type(e).__name__}')
@@ -629,10 +632,10 @@ def exec_fc(case):
         acc.keys.append(f"{fam}|{grid}|{size if fam == 'FCR' else ''}|{kdesc}|{eff_modes(modes, pads, grid)}|{case.get('ovr')}")
         for chk, det in r['kernel_findings']:
             sig = {'module': 'FilterConv', 'kernel': kern_family}
-            if fam == 'FCR':
-                sig['units'] = 'relative' if case['rel'] else 'absolute'
             if 'kind' in det:
                 sig['kind'] = det['kind']
+            if fam == 'FCR' and det.get('kind') != 'not_normalised':
+                sig['units'] = 'relative' if case['rel'] else 'absolute'
             acc.bad(chk, sig, det, narrowed(modes))
         if r.get('truncated'):
             acc.observed.append('radius kernel cut at the domain size (accepted)')
@@ -646,12 +649,12 @@ def exec_fc(case):
             cause = attribute(modes)
             d = r['value']
             d['modes'] = modes
-            acc.bad('fc_value', {'module': 'FilterConv', 'kernel': kern_family, 'cause': cause,
-                                 'override': bool(ovr)}, d, narrowed(modes))
+            d['kernel'] = kern_family
+            acc.bad('fc_value', {'module': 'FilterConv', 'cause': cause}, d, narrowed(modes))
         elif r['status'] == 'invariant':
-            for name, det in r['invariant'][:3]:
+            for name, det in r['invariant'][:1]:
                 det['modes'] = modes
-                acc.bad('fc_' + name, {'module': 'FilterConv', 'kernel': kern_family}, det, narrowed(modes))
+                acc.bad('fc_' + name, {'module': 'FilterConv'}, det, narrowed(modes))
     return acc.result()
 
 
@@ -702,7 +705,7 @@ def exec_df(case):
             continue
         bad, ninv = invariants(fields, Y, False)
         acc.checks += ninv
-        for name, det in bad[:3]:
+        for name, det in bad[:1]:
             det['radius'] = r
             acc.bad('df_' + name, {'module': 'DensityFilter', 'radius': rclass}, det, nc)
         nnb = int(np.count_nonzero(A[0]))
